@@ -303,6 +303,14 @@ def make_objects(rng):
                                                     "pvalue": rng.random()},
                                   **{nm: metric_result(True) for nm in rng.sample(NAMES, 2)}})
     objs.append(("ExperimentResult", narrow, False))
+    # plain-dict metric results (the documented alternative to NamedTuples) holding the SAME fields written in a
+    # different order, all values floats: every dataframe view must put each value under its own field name
+    fs = rng.sample(fields, 4)
+    shuffled = ExperimentResultOf = te.ExperimentResult({
+        nm: {k: rng.uniform(-1, 1) * 10 ** rng.randint(-2, 4) for k in rng.sample(fs, len(fs))}
+        for nm in rng.sample(NAMES, 3)})
+    del ExperimentResultOf
+    objs.append(("ExperimentResult", shuffled, True))
     objs.append(("ExperimentResults", te.ExperimentResults({(0, 1): narrow, (0, 2): exp_result(True)}), False))
     for homog in (True, False):
         objs.append(("ExperimentResult", exp_result(homog), homog))
